@@ -5,7 +5,7 @@ From Coq Require Import List ZArith Bool Lia.
 Import ListNotations.
 From Goat Require Import Model.Client Model.Protocol Proofs.ClientBase Proofs.ProtocolClient.
 From Goat Require Model.Server Model.Sys Proofs.SysC01.
-From Goat Require Import Proofs.ServerOrigin Proofs.SysLog Proofs.ServerWriter Proofs.ServerProto Proofs.SysCancel.
+From Goat Require Import Proofs.ServerOrigin Proofs.SysLog Proofs.ServerWriter Proofs.ServerProto Proofs.SysCancel Proofs.ServerTrailer.
 Open Scope Z_scope.
 
 (* Client half. For EVERY run of the client model (any peer, any interleaving of the internal rules with
@@ -91,10 +91,25 @@ Theorem C06_sys : forall pol ls (s : Sys.state) c k,
 Proof. exact SysCancel.C06_sys_l. Qed.
 Print Assumptions C06_sys.
 
+(* C06_trailer_present: in every reachable state of the server model, for every STREAM handler that has returned
+   (program counter at unregisterStream or past it), a trailer envelope of its stream id was handed to the writer - and
+   was then written, refused by the transport, or is in the writer's Write call ([writer_fate]) - unless the handler's
+   context was done when it offered the trailer (rule r_h_send_ctx: the select in the server's write path took
+   ctx.Done): then the envelope may be given up (SvLost), and in that case the caller's reset for the id had been read
+   or the connection's context was done (the context given to Serve cancelled, or Serve leaving): [excused].
+   The model has no GRPC-Timeout: the handler's OWN deadline (finding trailer-lost-on-handler-deadline) is outside it. *)
+Theorem C06_trailer_present : forall nw ls (s : Server.state) h k,
+  Server.lrun (Server.init_n nw) ls = Some s -> nth_error (Server.hs s) h = Some k -> Server.h_unary k = false ->
+  returned k ->
+  exists f, Server.fid f = Server.fid (Server.h_req k) /\ is_trailer (pf f) = true /\
+            ((In (Server.SvTaken f) (Server.log s) /\ writer_fate s f) \/
+             (In (Server.SvLost f) (Server.log s) /\ excused s k)).
+Proof. exact ServerTrailer.C06_trailer_present_l. Qed.
+Print Assumptions C06_trailer_present.
+
 (* NOT PROVED (checked on the real server by the monitor only): the unary half of C06_server (exactly one response
    with header, trailer and a body or a non-OK status: needs a hypothesis on unary handler programs - a reply or an
-   error) and C06_trailer_present (the model has no GRPC-Timeout, so the finding trailer-lost-on-handler-deadline is
-   outside it; within the model a trailer is lost only when the handler's context is done: rule r_h_send_ctx). *)
+   error). *)
 
 (* the hypotheses of C06_client are met by a non-trivial run: open, two bodies, half-close, then the
    caller cancels: the client wrote open, body, body, trailer, reset - and the automaton accepts it *)
@@ -132,6 +147,20 @@ Example C06_server_applies :
       sconfb 1 (sreads (Server.log (Sys.sv s))) = true /\
       map (fun f => (Server.has_body f, Server.has_trl f)) (idf 1 (written (Server.log (Sys.sv s)))) = [(true, false); (true, false); (false, true)] /\
       proto_s2c false (proj 1 (map pf (written (Server.log (Sys.sv s))))) = true
+  | None => False
+  end.
+Proof. vm_compute. repeat split; reflexivity. Qed.
+
+(* C06_trailer_present is not vacuous: in the same run the stream handler has returned, nothing excuses a lost trailer
+   (no reset read, the connection's context live), and its trailer is on the wire *)
+Example C06_trailer_applies :
+  match Sys.lrun Sys.pol_any Sys.init SysC01.demo_c02 with
+  | Some s =>
+      existsb (fun k => negb (Server.h_unary k) && match Server.h_pc k with Server.HUnreg | Server.HDead => true | _ => false end)
+              (Server.hs (Sys.sv s)) = true /\
+      Server.cctx_done (Sys.sv s) = false /\
+      existsb Server.is_rst (sreads (Server.log (Sys.sv s))) = false /\
+      existsb (fun f => is_trailer (pf f)) (written (Server.log (Sys.sv s))) = true
   | None => False
   end.
 Proof. vm_compute. repeat split; reflexivity. Qed.
